@@ -401,9 +401,7 @@ def opTraces (sorted : Bool) (toks : List String) : String :=
   match runP pTraces toks with
   | none => "bad-op"
   | some t =>
-    match tracesToStef sorted t with
-    | none => "panic"
-    | some recs => joinWith " ; " (recs.map rSpanRecord)
+    joinWith " ; " ((tracesToStef sorted t).map rSpanRecord)
 
 def step (st : St) (toks : List String) : St × String :=
   match toks with
